@@ -25,5 +25,17 @@ def transfer : List (String × String) := [("callee", "transfer_model"), ("#0", 
 def wdm : List (String × String) :=
   [("callee", "wdm_model"), ("**", "self.wdm_params"), ("cosmo", "self.cosmo"), ("mx", "self.wdm_mass"), ("z", "self.z")]
 def cosmo : List (String × String) := [("callee", "cosmo_model.clone"), ("**", "self.cosmo_params")]
+/-- C18: the non-linear spectrum is HALOFIT applied to the object's own wavenumbers, linear Δ², redshift, cosmology and switch
+    (arguments bound to `halofit`'s parameter names, so positional and keyword calls read the same) -/
+def halofit : List (String × String) :=
+  [("callee", "halofit"), ("cosmo", "self.cosmo"), ("delta_k", "self.delta_k"), ("k", "self.k"), ("sigma_8", "self.sigma_8"),
+   ("takahashi", "self.takahashi"), ("z", "self.z")]
+
+/-- C08: the cumulative integrals are the stand-alone integrator applied to the positive part of the (possibly extended) table, and the
+    automatic high-mass extension continues the grid one step above its last mass, up to 10^18 -/
+def gtmIntegrator : List (String × String) :=
+  [("callee", "hmf_integral_gtm"), ("M", "m[dndm > 0]"), ("dndm", "dndm[dndm > 0]"), ("mass_density", "mass_density")]
+def gtmExtension : List (String × String) :=
+  [("callee", "<derived object>.update"), ("Mmax", "18"), ("Mmin", "np.log10(self.m[-1]) + self.dlog10m")]
 
 end Hmf.Spec.Wiring
